@@ -190,6 +190,17 @@ func tmod(a, b *sx.T) *sx.T {
 // Declare registers an SMT declaration needed by a translated term (set by the engine).
 var Declare = func(key, decl string) {}
 
+// DeclareAtoi declares the uninterpreted functions modelling std.atoi of the given base (10 or 16); their axioms
+// are added by the engine's prelude whenever the functions are declared.
+func DeclareAtoi(base int) {
+	Declare(fmt.Sprintf("uf:std_atoi%d_ok", base), fmt.Sprintf("(declare-fun std_atoi%d_ok (String) Bool)", base))
+	Declare(fmt.Sprintf("uf:std_atoi%d", base), fmt.Sprintf("(declare-fun std_atoi%d (String) Int)", base))
+	Declare(fmt.Sprintf("uf:std_atoi%d_bad", base), fmt.Sprintf("(declare-fun std_atoi%d_bad (String) Int)", base))
+	if base == 16 {
+		Declare("uf:std_hexu", "(declare-fun std_hexu (String) Int)")
+	}
+}
+
 // NeedList asks the engine to register the list sort with the given element type.
 var NeedList = func(elem Type) {}
 
@@ -855,6 +866,25 @@ func (e *Env) call(x *ECall) TV {
 		return TV{T: sx.App("native_roles_GetDesignatedByRole", sx.Int(16), sx.App("+", sx.Atom("native_ledger_CurrentIndex"), sx.Int(1))), Ty: Type{K: KList, Name: "L_NB"}}
 	case x.Fn == "committee":
 		return TV{T: committeeT(), Ty: Type{K: KList, Name: "L_NB"}}
+	case x.Fn == "atoi10" || x.Fn == "atoi16" || x.Fn == "atoi10ok" || x.Fn == "atoi16ok" || x.Fn == "hexu":
+		// value / validity of std.Atoi10(s), std.Atoi(s, 16) of the native StdLib, and the unsigned value of a hex text
+		base := 10
+		if strings.Contains(x.Fn, "16") || x.Fn == "hexu" {
+			base = 16
+		}
+		DeclareAtoi(base)
+		a := toBytes(e.Tr(x.Args[0]))
+		switch {
+		case x.Fn == "hexu":
+			return TV{T: sx.App("std_hexu", a), Ty: Type{K: KInt}}
+		case strings.HasSuffix(x.Fn, "ok"):
+			return TV{T: sx.App(fmt.Sprintf("std_atoi%d_ok", base), a), Ty: Type{K: KBool}}
+		}
+		return TV{T: sx.App(fmt.Sprintf("std_atoi%d", base), a), Ty: Type{K: KInt}}
+	case x.Fn == "ecdsa":
+		// crypto.VerifyWithECDsa(msg, pub, sig, Secp256r1Sha256): the same uninterpreted function the engine uses
+		Declare("uf:native_crypto_VerifyWithECDsa", "(declare-fun native_crypto_VerifyWithECDsa (String String String Int) Bool)")
+		return TV{T: sx.App("native_crypto_VerifyWithECDsa", toBytes(e.Tr(x.Args[0])), toBytes(e.Tr(x.Args[1])), toBytes(e.Tr(x.Args[2])), sx.Int(23)), Ty: Type{K: KBool}}
 	case x.Fn == "ripemd160":
 		Declare("uf:native_crypto_Ripemd160", "(declare-fun native_crypto_Ripemd160 (String) NB)")
 		return TV{T: sx.App("native_crypto_Ripemd160", toBytes(e.Tr(x.Args[0]))), Ty: Type{K: KNB}}
